@@ -124,7 +124,7 @@ macro_rules! exec {
           }
         }
         Hop::ArmPeek(k) => {
-          if *k < unsubs.len() && active[*k] && !armed_peek.borrow().contains(k) {
+          if *k < unsubs.len() && active[*k] && !armed_peek.borrow().contains(k) && !armed_nest.borrow().contains(k) {
             armed_peek.borrow_mut().push(*k);
             let (ap, pp, bc, kk) = (armed_peek.clone(), peek_problems.clone(), b.clone(), *k);
             set_local_cb(
